@@ -11,7 +11,7 @@ var apiFuncs = map[string]bool{
 	"vInt": true, "vRange": true, "vBytes": true, "vString": true, "vChoose": true,
 	"vAssume": true, "vAssert": true, "vFail": true, "vCover": true, "vLabel": true,
 	"vNote": true, "vEngine": true, "vStop": true, "vIsConcrete": true, "vConcretize": true,
-	"vFresh": true, "vParam": true, "vAnd": true, "vOr": true,
+	"vFresh": true, "vParam": true, "vAnd": true, "vOr": true, "vGoroutine": true,
 }
 
 func (ex *Exec) callAPI(fr *frame, name string, args []value) value {
@@ -114,6 +114,11 @@ func (ex *Exec) callAPI(fr *frame, name string, args []value) value {
 		return nil
 	case "vStop":
 		panic(pathEnd{PathOK, "vStop"})
+	case "vGoroutine": // id of the running goroutine in scheduled mode (0 = harness)
+		if ex.sched != nil && ex.curG != nil {
+			return tt.Const(64, uint64(ex.curG.id))
+		}
+		return tt.Const(64, 0)
 	case "vIsConcrete":
 		switch x := args[0].(iface).v.(type) {
 		case *Term:
